@@ -57,7 +57,10 @@ def rule_mirror(ctx):
                 msg(p, f"Def{kind}Vector", "D", "V2", [_defpart(p, kind, "A", v0)], state="Idle"),
             ]
 
-        base_expect = {"D": {"V1": {"cls": f"{kind}Vector", "state": "Ok", "elements": {"A": repr(v0), "B": repr(v0)}}, "V2": {"cls": f"{kind}Vector", "state": "Idle", "elements": {"A": repr(v0)}}}}
+        def vec_exp(name, state, elems):
+            return {"cls": f"{kind}Vector", "state": state, "elements": dict(elems), "meta": (name, name, "G"), "element_meta": {k: (k, k) for k in elems}}
+
+        base_expect = {"D": {"V1": vec_exp("V1", "Ok", {"A": repr(v0), "B": repr(v0)}), "V2": vec_exp("V2", "Idle", {"A": repr(v0)})}}
 
         def exp(mod):
             import copy
@@ -74,9 +77,9 @@ def rule_mirror(ctx):
         cases = [
             ("definitions create device and properties", lambda: [], lambda e: None),
             ("definition for a second device", lambda: [msg(p, f"Def{kind}Vector", "D2", "W", [_defpart(p, kind, "A", v1)], state="Busy")],
-             lambda e: e.__setitem__("D2", {"W": {"cls": f"{kind}Vector", "state": "Busy", "elements": {"A": repr(v1)}}})),
+             lambda e: e.__setitem__("D2", {"W": vec_exp("W", "Busy", {"A": repr(v1)})})),
             ("re-definition replaces the property", lambda: [msg(p, f"Def{kind}Vector", "D", "V1", [_defpart(p, kind, "B", v1)], state="Alert")],
-             lambda e: e["D"].__setitem__("V1", {"cls": f"{kind}Vector", "state": "Alert", "elements": {"B": repr(v1)}})),
+             lambda e: e["D"].__setitem__("V1", vec_exp("V1", "Alert", {"B": repr(v1)}))),
             ("deletion of one property", lambda: [msg(p, "DelProperty", "D", "V1")], lambda e: e["D"].pop("V1")),
             ("deletion of an unknown property", lambda: [msg(p, "DelProperty", "D", "NOPE")], lambda e: None),
             ("deletion of the whole device", lambda: [msg(p, "DelProperty", "D", None)], lambda e: e.pop("D")),
